@@ -70,6 +70,9 @@ def run(tier):
     with scratch() as base:
         for i in range(n):
             model = genlib.rand_model(r, ("sm", "sm", "sm", "proto", "uml", "uml", "uml"), big=r.random() < 0.3)
+            if model["kind"] == "sm" and r.random() < 0.35:
+                model = genlib.share_a_name(r, model)
+                oc.stat("tables_with_a_name_in_two_roles")
             out = os.path.join(base, "o%d" % i)
             try:
                 runner.generate(model, out)
@@ -78,6 +81,23 @@ def run(tier):
                 break
             oc.stat("kind_" + model["kind"] + "_" + str(model.get("backend")) + ("_synthesised" if model.get("synth") else ""))
             check_tree(oc, out, dict(model=model), reqs, pend)
+        # every pair of roles sharing a name, on every back end (and both C++ template sets)
+        import itertools
+        k = 0
+        for backend in ("py", "cs", "cpp", "cpp"):
+            for pair in itertools.combinations(("state", "event", "action", "guard"), 2):
+                if oc.violations:
+                    break
+                model = genlib.share_a_name(r, genlib.rand_sm_model(r, backend), pair=list(pair))
+                out = os.path.join(base, "x%d" % k)
+                k += 1
+                try:
+                    runner.generate(model, out)
+                except Exception as e:      # noqa
+                    oc.violations.append(dict(what="generator raised %s: %s" % (type(e).__name__, e), model=model))
+                    break
+                oc.stat("name_shared_by_%s_and_%s" % pair)
+                check_tree(oc, out, dict(model=model), reqs, pend)
     for (info, problems, dup), a in zip(pend, lean_batch(reqs)):
         oc.traces_validated += 1
         if "error" in a:
